@@ -146,7 +146,7 @@ def run_case(case, ctx):
             ctx.reject("==/!= between datetime-like and other dtypes is a NumPy richcompare fallback, not a ufunc")
             return
 
-    def build(X, Y, mod, op=op):
+    def build(X, Y, mod, op=op, cond_rem=0):
         if kind == "bin":
             return getattr(operator, op)(X, Y)
         if kind == "rbin":
@@ -171,7 +171,7 @@ def run_case(case, ctx):
                 # reference cannot be evaluated, so the case is outside the domain (thorough seed 0, case 14448).
                 raise ValueError("reference crashes: comparison with an out-of-range Python int under where=/out=")
             shape = np.broadcast_shapes(np.shape(X), np.shape(Y))
-            cond = (np.arange(int(np.prod(shape)) if shape else 1).reshape(shape) % 2) == 0
+            cond = (np.arange(int(np.prod(shape)) if shape else 1).reshape(shape) % 2) == cond_rem
             # probe the result dtype on the NumPy side to allocate `out`
             with np.errstate(all="ignore"):
                 probe = getattr(np, op)(x, y)
@@ -233,6 +233,9 @@ def _sibling(case, kind, op, yk, dx, dy, build, da):
     if kind == "clip":
         op2 = [op[0] - 1, op[1]] if srng.random() < 0.5 else [op[0], op[1] - 1 if op[1] - 1 >= op[0] else op[1] + 1]
         return "bound", (lambda: build(dx, dy, da, op=op2)), {"bounds": op2}
+    if kind == "whereout" and srng.random() < 0.5:
+        # the same ufunc call with the complementary where= mask
+        return "where-mask", (lambda: build(dx, dy, da, cond_rem=1)), {"where": "complement"}
     if kind in _BINARY and yk == "scalar" and srng.random() < 0.75:
         j = srng.choice([i for i in range(len(SCALARS)) if i != case["scalar"]])
         return "scalar", (lambda: build(dx, _scalar(j), da)), {"scalar": repr(SCALARS[j])}
